@@ -20,7 +20,7 @@
 (***************************************************************************)
 EXTENDS Integers, Sequences, FiniteSets, TLC, Randomization
 
-CONSTANTS MaxDecls, Sample
+CONSTANTS MaxDecls, Sample, NFiles
 
 Kinds == <<"field", "structfield", "chain", "list", "embed", "let", "attr", "forcomp", "ifcomp", "call",
            "optreq", "def", "mlstring", "binchain", "pattern", "listcomp", "emptystruct", "nestedlist",
@@ -29,7 +29,8 @@ Seps == <<"comma-space", "newline", "comma-newline">>
 Spaces == <<"one", "none", "many">>
 Slots == {"doc", "line", "in", "end", "between", "colon", "elem", "op"}
 
-Layout == [sep : 1..3, colon : 1..3, op : 1..3, parens : BOOLEAN, blank : 0..2, trail : BOOLEAN, indent : {"tab", "spaces", "none"}]
+\* hug: the closing bracket of a multi-line list / argument list stays on the line of the last element
+Layout == [sep : 1..3, colon : 1..3, op : 1..3, parens : BOOLEAN, blank : 0..2, trail : BOOLEAN, indent : {"tab", "spaces", "none"}, hug : BOOLEAN]
 
 VARIABLES decls, layout, comments
 vars == <<decls, layout, comments>>
@@ -41,5 +42,14 @@ Init ==
   /\ comments \in {S \in SUBSET Slots : Cardinality(S) <= 2}
 Next == UNCHANGED vars
 
-TablesInit == decls = [kinds |-> Kinds, seps |-> Seps, spaces |-> Spaces] /\ layout = 0 /\ comments = {}
+\* ---- the repository's own CUE sources as seeds, with whitespace / comment mutations ----
+\* A mutant is (file, operation, place): the operation is applied at the token boundary that lies
+\* place/20 of the way through the file.  Every mutant that still parses is an input like any other.
+CorpusOps == <<"none", "newline", "blank-line", "line-comment", "eol-comment", "strip-space", "comma", "tab", "doc-comment-before", "paren">>
+Mutants == [file : 1..NFiles, op : 1..Len(CorpusOps), at : 0..19]
+CorpusInit ==
+  /\ decls \in (IF Sample = 0 THEN Mutants ELSE RandomSubset(Sample, Mutants) \cup [file : 1..NFiles, op : {1}, at : {0}])
+  /\ layout = 0 /\ comments = {}
+
+TablesInit == decls = [kinds |-> Kinds, seps |-> Seps, spaces |-> Spaces, ops |-> CorpusOps] /\ layout = 0 /\ comments = {}
 =============================================================================
